@@ -183,16 +183,24 @@ Proof. exact decode_pem_private_key_refuted. Qed.
 Print Assumptions C07_pem_private_key_refuted.
 
 (* crypto.SerializeKey: every dynamic type jwk's Raw() stores; an RSA private key with a prime
-   factor 1 is never valid. *)
-Theorem C07_serialize_key_no_panic : forall raw unit_prime rsa_valid,
-  (unit_prime = true -> rsa_valid = false) -> serialize_key Fixed raw unit_prime rsa_valid <> MPanic.
+   factor 1 is never valid; for an ECDSA private key EVERY scalar (any byte length), given that the
+   order of the curve's group fits the curve's byte size. *)
+Theorem C07_serialize_key_no_panic : forall raw unit_prime rsa_valid ec_d ec_n ec_size,
+  (unit_prime = true -> rsa_valid = false) -> ec_n <= 256 ^ ec_size ->
+  serialize_key Fixed raw unit_prime rsa_valid ec_d ec_n ec_size <> MPanic.
 Proof. exact serialize_key_fixed_no_panic. Qed.
 Print Assumptions C07_serialize_key_no_panic.
 
 Theorem C07_serialize_key_refuted : exists raw unit_prime rsa_valid,
-  (unit_prime = true -> rsa_valid = false) /\ serialize_key Original raw unit_prime rsa_valid = MPanic.
+  (unit_prime = true -> rsa_valid = false) /\ serialize_key Original raw unit_prime rsa_valid 0 0 0 = MPanic.
 Proof. exact serialize_key_refuted. Qed.
 Print Assumptions C07_serialize_key_refuted.
+
+(* before the fix: an ECDSA private key whose scalar needs more bytes than the curve has *)
+Theorem C07_serialize_key_ec_refuted : exists d n size, n <= 256 ^ size /\
+  serialize_key Original (Some REcdsaPriv) false true d n size = MPanic.
+Proof. exact serialize_key_ec_refuted. Qed.
+Print Assumptions C07_serialize_key_ec_refuted.
 
 (* crypto.VerifyPublicKey("EdDSA"): every key kind and EVERY Ed25519 public-key length. *)
 Theorem C07_verify_eddsa_no_panic : forall kty_okp iface_ok crv_ed raw_ok pubLen,
